@@ -5,9 +5,9 @@ from .lib import gen, css
 PROP = 'C34'
 LEVEL = 'exploration'
 BUDGET = {'quick': 30, 'thorough': 400}
-FLOOR = {'quick': 3000, 'thorough': 30000}
+FLOOR = {'quick': 2000, 'thorough': 20000}
 RULE = ('table of the global/module pairs that the Sass documentation declares equivalent (string, list, map, math, color, selector, '
-        'meta; with the documented parameter names), random argument tuples drawn from typed pools (mostly well-typed, some ill-typed '
+        'meta; with the documented parameter names), random argument tuples drawn from typed pools and from random numbers/strings/colors (mostly well-typed, some ill-typed '
         'or out of range), optional arguments present or absent.  Each tuple is evaluated in up to 12 call shapes: global and module '
         'name x (positional | all named | first k positional, rest named), and meta.call(meta.get-function(global)), '
         'meta.call(meta.get-function(member, $module: ns)), call(get-function(global)) with positional and with named arguments.  '
@@ -163,9 +163,42 @@ for _e in TABLE:
 
 # ------------------------------------------------------------------ generation
 
+def _rand_number(rng):
+    v = rng.choice([rng.randint(-50, 50), round(rng.uniform(-20, 20), rng.randint(1, 4)), rng.randint(0, 9) + 0.5, round(rng.uniform(0, 1), 3)])
+    return '%s%s' % (v, rng.choice(['', '', 'px', '%', 'em', 'deg', 's', 'in', 'rem']))
+
+
+def _rand_string(rng):
+    n = rng.randint(0, 9)
+    if rng.random() < 0.3:
+        return 'q' + ''.join(rng.choice('abcxyz019-') for _ in range(n))          # unquoted identifier
+    return '"%s"' % ''.join(rng.choice('abcXYZ åéß€-_ 09.,:') for _ in range(n))
+
+
+def _rand_color(rng):
+    r = rng.random()
+    if r < 0.3:
+        return '#%06x' % rng.randrange(1 << 24)
+    if r < 0.55:
+        return 'rgb(%d, %d, %d)' % (rng.randint(0, 255), rng.randint(0, 255), rng.randint(0, 255))
+    if r < 0.7:
+        return 'rgba(%d, %d, %d, %s)' % (rng.randint(0, 255), rng.randint(0, 255), rng.randint(0, 255), round(rng.random(), 2))
+    if r < 0.9:
+        return 'hsl(%d, %d%%, %d%%)' % (rng.randint(0, 359), rng.randint(0, 100), rng.randint(0, 100))
+    return 'hsla(%d, %d%%, %d%%, %s)' % (rng.randint(0, 359), rng.randint(0, 100), rng.randint(0, 100), round(rng.random(), 2))
+
+
+RANDOM_GEN = {'number': _rand_number, 'number2': _rand_number, 'string': _rand_string, 'substring': _rand_string, 'color': _rand_color,
+              'index': lambda rng: str(rng.randint(-9, 9)), 'nth': lambda rng: str(rng.randint(-4, 4)),
+              'weight': lambda rng: '%s%%' % rng.choice([rng.randint(0, 100), round(rng.uniform(0, 100), 2)]),
+              'unitless': lambda rng: str(round(rng.uniform(-2, 2), rng.randint(1, 4)))}
+
+
 def draw(rng, typ, bad_ok):
     if typ == 'same-unit':
         raise ValueError
+    if typ in RANDOM_GEN and rng.random() < 0.4:
+        return RANDOM_GEN[typ](rng)
     good, bad = POOL[typ]
     if bad and bad_ok and rng.random() < 0.08:
         return rng.choice(bad)
@@ -371,22 +404,38 @@ def judge(ctx, case, sh, vals):
         ctx.seen('shapes', k)
     posk = [k for k in keys if k in POSITIONAL]
     namk = [k for k in keys if k not in POSITIONAL]
-    detail = {'expressions': {k: sh[k] for k in keys}, 'observed': {k: (vals[k][1] if vals[k][0] == 'ok' else 'ERROR ' + vals[k][1].strip().split('\n')[0][:160]) for k in keys}}
-    if len({lab[k] for k in posk}) > 1:
-        ctx.violation('%s|positional|%s' % (case['fn'], ' '.join('%s=%s' % (k, lab[k]) for k in posk)), case, detail)
+    if len(set(lab.values())) == 1:
+        if namk:
+            ctx.seen('named_forms_agree', case['fn'])
         return
-    if not namk:
-        return
-    ref = lab[posk[0]]
-    nl = {lab[k] for k in namk}
-    if nl == {ref}:
-        ctx.seen('named_forms_agree', case['fn'])
-        return
-    if nl == {'err'} and ref != 'err':
-        # the documented names are rejected by every named shape alike: the forms agree with each other
+    if namk and all(lab[k] == 'err' for k in namk) and len({lab[k] for k in posk}) == 1:
+        # the documented names are rejected by every named shape alike while the positional shapes agree: the forms agree with each other
         ctx.seen('documented_name_rejected_by_every_named_shape', '%s(%s)' % (case['fn'], ','.join(p[0] for p in e['params'][:len(case['args'])])))
         return
-    ctx.violation('%s|named|positional=%s %s' % (case['fn'], ref, ' '.join('%s=%s' % (k, lab[k]) for k in namk)), case, detail)
+    # signature: what the majority of the shapes gives, and which shapes deviate how.  A deviation of meta.call shapes only is a
+    # property of the call path, not of the function, so the function name is not part of that signature.
+    count = {}
+    for k in keys:
+        count[lab[k]] = count.get(lab[k], 0) + 1
+    top = max(count.values())
+    ref = lab['global-positional'] if count[lab['global-positional']] == top else [l for l in count if count[l] == top][0]
+    dev = [k for k in keys if lab[k] != ref]
+    others = []
+    for k in dev:
+        if lab[k] != 'err' and lab[k] not in others:
+            others.append(lab[k])
+
+    def word(l):
+        if l == 'err':
+            return 'err'
+        if ref == 'err' and len(others) == 1:
+            return 'value'
+        return 'other-value' if others.index(l) == 0 else 'other-value-%d' % (others.index(l) + 1)
+
+    scope = 'meta.call' if all(k.startswith('call-') for k in dev) else case['fn']
+    detail = {'expressions': {k: sh[k] for k in keys},
+              'observed': {k: (vals[k][1] if vals[k][0] == 'ok' else 'ERROR ' + vals[k][1].strip().split('\n')[0][:160]) for k in keys}}
+    ctx.violation('%s|majority=%s|%s' % (scope, 'err' if ref == 'err' else 'value', ' '.join('%s=%s' % (k, word(lab[k])) for k in dev)), case, detail)
 
 
 def check_case(ctx, case):
